@@ -67,6 +67,7 @@ INLINE.append("".join("v%d = %d\n" % (i, i + 1000) for i in range(200)) + "while
 INLINE.append("def f():\n return 1\n" + "\n" * 125 + " [\n  x\n ]\n")
 INLINE.append("def f(a, *args, b, **kw):\n    return a\n")
 INLINE.append("def f(x):\n    try:\n        pass\n    finally:\n        h = lambda: x\n    return h\n")
+INLINE.append("def f(x):\n    ''\n    return x.y(200, 'a')\nclass K:\n    ''\n    def m(self):\n        \"\"\n        return (1, 2)\nasync def g():\n    ''\n    yield 1\n")
 INLINE.append("x = 1\n" + "\n" * 300 + "y = 2\n" + "z = (\n" + "\n" * 200 + "1,\n x)\n")
 
 
